@@ -562,7 +562,7 @@ func parseOTLP(payload *zipkinPayload) (*v1.Span, string, error) {
 		firstLevelMap[kv.Key] = kv
 	}
 	serviceName := ""
-	for _, attr := range []string{"peer.service", "service.name", "faas.name",
+	for _, attr := range []string{"service.name", "peer.service", "faas.name",
 		"k8s.deployment.name", "process.executable.name"} {
 		if val, ok := firstLevelMap[attr]; ok && val.Value.GetStringValue() != "" {
 			serviceName = val.Value.GetStringValue()
